@@ -167,6 +167,10 @@ fn main() {
             let o = c13::generate(seed, scale, cmd);
             o.write(&out, cmd, "From MLV Require Import model.Bytes model.NetModel model.Check13.", "c13case", "run13", shards);
         }
+        "c15rekey" => {
+            let o = c18::generate_rekey(seed, scale);
+            o.write(&out, "c15rekey", "From MLV Require Import model.Bytes model.PutQuery model.Check08 model.Modes model.Check18.", "c18case", "run18", shards);
+        }
         "c18" => {
             let o = c18::generate(seed, scale);
             o.write(&out, "c18", "From MLV Require Import model.Bytes model.PutQuery model.Check08 model.Modes model.Check18.", "c18case", "run18", shards);
